@@ -138,7 +138,7 @@ theorem runActs_abs (acts : List Act) (i : Inp) (s : PState) (out : List Seq) (n
 
 def aRunFn (f : StateFn) (i : Inp) (a : AS) : AS × Bool × Next :=
   let r := aRunActs (f.row i).1 (isEof i) a.exit a.ign false (f.row i).2
-  (⟨a.state, r.1, if f.pre.contains .deferClearIgnoreST then false else r.2.1⟩, r.2.2.1, r.2.2.2)
+  (⟨a.state, r.1, if (f.row i).1.contains .deferClearIgnoreST then false else r.2.1⟩, r.2.2.1, r.2.2.2)
 
 theorem runFn_abs (f : StateFn) (i : Inp) (s : PState) :
     α (runFn f i s).1 = (aRunFn f i (α s)).1 ∧
